@@ -6,6 +6,8 @@ import PcVerif.Model.Detect
 import PcVerif.Lemmas.StrLemmas
 import PcVerif.Lemmas.DetectOwn
 import PcVerif.Lemmas.DetectOwnScc
+import PcVerif.Props.C08
+import PcVerif.Props.C17
 namespace PcVerif.Props.C20
 open PcVerif PcVerif.Detect PcVerif.Str
 
@@ -164,4 +166,40 @@ theorem detect_own_scc (caps : List (List Str × Rat × Rat)) (hok : ∀ c ∈ c
     detectFormat (SccW.write caps) = .ok (some .scc) :=
   SccW.detect_own_scc caps hok
 
+/-! ### "… and that reader reads the document" (session 4): detection and reading together, on the writer and reader models -/
+
+/-- **C20 (own output is detected AND read, SRT).** the whole third clause for SRT: the document is detected as SRT and the
+    SRT reader reads it — to one caption per written cue with the writer's lines and the millisecond instants -/
+theorem own_srt_detected_and_read (capsIn : List RCap)
+    (hne : Srt.mergeSame [] capsIn ≠ [])
+    (hv : ∀ c ∈ Srt.mergeSame [] capsIn, Srt.textsOf c.nodes ≠ [])
+    (hbr : ∀ c ∈ Srt.mergeSame [] capsIn, ∀ t ∈ Srt.textsOf c.nodes, Srt.NoBreak t)
+    (hmk : ∀ c ∈ Srt.mergeSame [] capsIn, ∀ t ∈ Srt.textsOf c.nodes, Detect.NoMarker t) :
+    detectFormat (Srt.write [capsIn]) = .ok (some .srt) ∧
+    Srt.read (Srt.write [capsIn]) = .ok ((Srt.mergeSame [] capsIn).map Srt.readBack) :=
+  ⟨detect_own_srt capsIn hne hv hbr hmk, C08.srt_hop capsIn hne hv hbr⟩
+
+/-- … WebVTT -/
+theorem own_vtt_detected_and_read (cs : List VttW.CapIn) (hne : cs ≠ []) (hok : ∀ c ∈ cs, c.OK) :
+    detectFormat (VttW.writePlain (cs.map VttW.toRCap)) = .ok (some .webvtt) ∧
+    Vtt.read {} (VttW.writePlain (cs.map VttW.toRCap)) = .ok (cs.map VttW.readBack) :=
+  ⟨detect_own_vtt cs hok, C08.vtt_hop cs hne hok⟩
+
+/-- … MicroDVD -/
+theorem own_mdvd_detected_and_read (cs : List VttW.CapIn) (hne : cs ≠ []) (hok : ∀ c ∈ cs, MicroDvd.CapOK c)
+    (hmk : ∀ c ∈ cs, ∀ t ∈ c.2.2, Str.contains Detect.dfxpMarker (Str.lower t) = false) :
+    detectFormat (MicroDvd.write [cs.map VttW.toRCap]) = .ok (some .microdvd) ∧
+    MicroDvd.read (MicroDvd.write [cs.map VttW.toRCap]) = .ok (cs.map MicroDvd.readBack) :=
+  ⟨detect_own_mdvd cs hne hok hmk, C08.mdvd_hop cs hne hok⟩
+
+section
+open PcVerif.Scc PcVerif.SccW
+/-- … SCC: for caption sets of 1–15 tidy rows of basic characters the written file is detected as SCC and the SCC reader model,
+    whatever the offset, stores exactly one caption per written caption with its rows -/
+theorem own_scc_detected_and_read (caps : List (List Str × Rat × Rat)) (hg : ∀ c ∈ caps, GoodLines c.1) (off : Rat) :
+    detectFormat (SccW.write caps) = .ok (some .scc) ∧
+    (run (write caps) off).S.stash.map view = caps.map (fun c => capView c.1) :=
+  ⟨detect_own_scc caps (fun c hc => ⟨(hg c hc).2.1, fun l hl x hx => ((hg c hc).2.2 l hl).2 x hx⟩),
+   C17.written_file_restored caps hg off⟩
+end
 end PcVerif.Props.C20
